@@ -29,6 +29,7 @@ def opts(tier):
     o.max_segments = 7
     o.max_channels = 4
     o.props = False
+    o.huge_p = 0.004
     o.many_segments_p = 0.01
     o.p_none = 0.25
     o.max_chunks = 5
